@@ -247,7 +247,7 @@ func (c *Ctx) c16Op(nsheets int, names bool) wop {
 		return wop{K: "A", I: r.Intn(nsheets+2) - 1}
 	case k < 86:
 		return wop{K: "C", I: r.Intn(nsheets + 1), J: r.Intn(nsheets + 1)}
-	case k < 94 || !names:
+	case k < 90 || !names:
 		return wop{K: "T", A: nm()}
 	case k < 97:
 		return wop{K: "DN", A: nm()}
@@ -301,7 +301,7 @@ func runC16(c *Ctx) {
 		var ops []wop
 		ns := 1
 		for j := 0; j < l; j++ {
-			o := c.c16Op(ns, i%3 == 0)
+			o := c.c16Op(ns, i%2 == 0)
 			if o.K == "N" {
 				ns++
 			}
